@@ -247,9 +247,9 @@ pub fn name_matches(name: &[u8], exts: &Option<BTreeSet<String>>) -> bool {
 
 #[derive(Debug, Default, Clone)]
 pub struct RefListing {
-    /// Regular files that MUST be denoted.
+    /// Regular files, and link entries whose referent is a regular file, that MUST be denoted.
     pub must: BTreeSet<PathBuf>,
-    /// Symlink entries (referent a regular file, own name matches) that MAY be denoted.
+    /// Link entries named `.zinoma` (referent a regular file) that MAY be denoted.
     pub may: BTreeSet<PathBuf>,
 }
 
@@ -277,10 +277,17 @@ pub fn reference_listing(paths: &[PathBuf], exts: &Option<BTreeSet<String>>) -> 
                 out.must.insert(p.to_path_buf());
             }
         } else if ft.is_symlink() {
+            // An entry that is a link to a regular file is listed like the file it names (the
+            // lister asks `Path::is_file`, which resolves links; content and mtime are then
+            // read through the link). Entries named `.zinoma` are pruned whatever their type.
             let _ = top;
             if let Ok(t) = std::fs::metadata(p) {
                 if t.is_file() && name_matches(&name, exts) {
-                    out.may.insert(p.to_path_buf());
+                    if name == b".zinoma" {
+                        out.may.insert(p.to_path_buf());
+                    } else {
+                        out.must.insert(p.to_path_buf());
+                    }
                 }
             }
         }
